@@ -126,6 +126,13 @@ CLAIMED = {
         "slot of constructor-built instructions changes the printed instruction exactly there. Two defects were repaired by fix commits.",
    note="Lean kernel (decide +kernel); trusted: table generator (go/ast + reflection analyser), hand-written specSuccs, harness.",
    technique="Lean 4 kernel decision over a table regenerated from source + differential oracle on the implementation", design="§4 C15"),
+ "C10": dict(
+   text="Partial. Lean proof, for ANY IEEE-754 interchange format (instantiated for half, double/float patterns, fp128) and for canonical x86_fp80 encodings, that every non-NaN "
+        "bit pattern — signed zeros, subnormals, normals, infinities — is preserved exactly by parse-then-print-in-hex, that distinct patterns denote distinct values in the "
+        "library's carrier, and that NaNs keep NaN-ness and sign only (payload loss kernel-checked and recorded as a known finding). Decimal notation, rounding and ppc_fp128 "
+        "are tied by correspondence and an exact-rational oracle on the implementation (all 2^16 half patterns in thorough).",
+   note="Lean kernel + propext/Quot.sound; bit-level model hand-written; big.Float normalisation, strconv/big formatting and mewmew/float exactness tests are trusted library contracts.",
+   technique=T, design="§4 C10"),
 }
 
 def main():
